@@ -40,6 +40,8 @@ def freq_sets(fn_list):
     out = {"zero": np.array([0.0]), "zero+f": np.array([0.0, 3.3]), "three": np.array([0.13, 1.1, 10.3])}
     if fn_list:
         out["resonance"] = np.array(sorted(set(fn_list)))
+    # frequencies in any order, with a repeated value (nothing in the documentation asks for a sorted vector)
+    out["unsorted"] = np.array([10.3, 0.13, 1.1, 1.1])
     return out
 
 
